@@ -173,7 +173,9 @@ def rand_ed_ops(rng, n):
         else: ops.append("cl")
     return ops
 
-HIST_LINES = [b"a", b"b", "é".encode(), b"ab", b"ba", "aé".encode(), b"abc", "€a".encode(), b"abcd", b"abcdefgh", b""]
+HIST_LINES = [b"a", b"b", "é".encode(), b"ab", b"ba", "aé".encode(), b"abc", "€a".encode(), b"abcd", b"abcdefgh", b"",
+              # upper / lower case twins, DEL (the decoder hands it on as a character, so a line can contain it), no-break space, blanks at the ends
+              b"A", b"Ab", b"aB", b"a\x7f", b"\x7f", "a\u00a0".encode(), b" a", b"a "]
 
 def rand_hist_ops(rng, n, lines=HIST_LINES):
     ops = []
@@ -230,7 +232,11 @@ def rand_scenario(rng):
     if r == 0:
         # Tab after a (partial) command word followed by blanks, with the cursor moved back among the blanks or into the word
         w = rng.choice([b"he", b"hel", b"help", b"h", b"ec", b"x"])
-        ops.append("b:" + hx(w + b" " * rng.choice([0, 1, 2, 3])))
+        tail = b" " * rng.choice([0, 1, 2, 3])
+        if rng.randrange(4) == 0:
+            # other Unicode white space: ordinary characters for the library, white space for str::trim and char::is_whitespace
+            tail = rng.choice([b"", b" "]) + enc(rng.choice(WS_CPS)) + rng.choice([b"", b" ", enc(rng.choice(WS_CPS))])
+        ops.append("b:" + hx(w + tail))
         ops += ["b:" + hx(KEYS["left"])] * rng.choice([0, 1, 1, 2, 3])
         ops.append("b:09")
         if rng.randrange(2): ops.append("b:" + hx(rng.choice([b"x", b" y", b""])))
